@@ -25,7 +25,7 @@ EXPLANATION = (
 )
 ASSUMPTIONS = ["payload values are opaque to the code (moved, never inspected)", "real JSON wire for the sent message"]
 TRUSTED = ["vt.sym explorer", "pydantic ScheduledTask (executed)"]
-BOUNDS = {"firings per run": 2, "tasks": "2 own + 1 foreign", "entries per task": "<= 3 (task 1), <= 2 (task 2)", "distinct times": 2}
+BOUNDS = {"firings per run": 2, "tasks": "2 own + 1 foreign", "entries per task": "<= 3 quick / 4 thorough (task 1), <= 2 (task 2)", "distinct times": 2}
 REQUIRED_COVERS = ["cancelled", "sent", "async_pre", "sync_pre", "second_firing", "listing", "fired_time", "fired_cron", "duplicate_times", "foreign"]
 
 T_A = dt.datetime(2030, 1, 1, 12, 0, 0)
@@ -37,9 +37,9 @@ def cases(tier: str, hname: str) -> List[Any]:
     if hname == "on_ready":
         return [{"pre": p, "post": q} for p in ("sync", "async") for q in ("sync", "async", "default")]
     out = []
-    n1 = 3
+    n1 = 3 if tier == "quick" else 4
     for e1 in itertools.product(range(4), repeat=n1):
-        out.append({"t1": list(e1)})
+        out.append({"t1": list(e1), "max1": n1})
     return out
 
 
@@ -153,7 +153,7 @@ def label_source(c: sym.Ctx, case: Dict[str, Any]) -> None:
     saved_global = dict(AsyncBroker.global_task_registry)
     try:
         broker = make_broker(lab)
-        kinds1 = [ENTRY[k] for k in case["t1"]][: c.choose([1, 2, 3], "n1")]
+        kinds1 = [ENTRY[k] for k in case["t1"]][: c.choose(list(range(1, case.get("max1", 3) + 1)), "n1")]
         kinds2 = [ENTRY[c.choose(4, f"t2.{k}")] for k in range(c.choose([0, 1, 2], "n2"))]
         foreign = c.flag("foreign_task")
 
@@ -181,7 +181,7 @@ def label_source(c: sym.Ctx, case: Dict[str, Any]) -> None:
 
         async def main() -> None:
             model = spec_list()
-            for rnd in range(4):
+            for rnd in range(4 if case.get("max1", 3) == 3 else 5):
                 got = await src.get_schedules()
                 listed = [(s.task_name, s.cron, s.time, list(s.args)) for s in got]
                 c.check(listed == model, "listing_is_declared_cron_and_time_entries_of_own_tasks", round=rnd, listed=listed, want=model)
